@@ -126,6 +126,7 @@ from pymbolic.mapper.analysis import NodeCountMapper
 from pymbolic.mapper.flop_counter import FlopCounter, FlopCounterBase
 from pymbolic.mapper.evaluator import CachedEvaluationMapper, EvaluationMapper
 from pymbolic.mapper.dependency import CachedDependencyMapper, DependencyMapper
+from pymbolic.mapper.differentiator import DifferentiationMapper
 from dst.simrt import hook as _hook
 from dst.c05 import walk_log as _walk_log
 '''
@@ -211,6 +212,10 @@ class C_dep_0(PrefixMixin0, CachedDependencyMapper):
 
 class P_dep(PrefixMixin0, DependencyMapper):
     pass
+
+
+class P_diff(DifferentiationMapper):
+    pass
 ''')
     return "".join(out)
 
@@ -260,7 +265,7 @@ ARITH = ["Variable", "Sum", "Product", "Quotient", "FloorDiv", "Remainder", "Pow
 
 FAMS_BROAD = ["ident", "subst", "collect", "walk", "dep", "count", "combine", "plainopt"]
 FAMS_ARITH = ["eval", "csemix_eval", "flop", "ident", "combine", "dep", "count", "collect",
-              "csemix_dep"]
+              "csemix_dep", "csemix_diff"]
 REWRITABLE = {"ident", "combine", "collect", "walk", "subst", "count", "flop", "plainopt"}
 EXTRAS_FAMS = {"ident", "combine", "collect", "walk", "dep", "plainopt", "csemix_dep"}
 
@@ -330,7 +335,7 @@ def generate(seed, tier):
     if mode == "nv":
         classes = ["Variable", "Sum", "Product", "Quotient", "Power", "Call",
                    "CommonSubexpression"]
-        fams = ["ident", "eval", "csemix_eval", "count", "dep", "subst", "flop"]
+        fams = ["ident", "eval", "csemix_eval", "count", "dep", "subst", "flop", "csemix_diff"]
         fault_mode = "none"
         profile = "arith"
 
@@ -416,6 +421,8 @@ def generate(seed, tier):
                 "include_subscripts": r.random() < 0.5, "include_lookups": r.random() < 0.5,
                 "include_calls": r.choice([True, False, "descend_args"]),
                 "include_cses": r.random() < 0.4}
+        elif fam == "csemix_diff":
+            cfg["var"] = r.choice(["x", "y"])
         elif fam == "subst":
             m = []
             for v in r.sample(["x", "y", "z", "xa"], r.randint(1, 3)):
@@ -635,6 +642,8 @@ def execute(scenario, open_sigs):
             return cls(ctx)
         if fam in ("dep", "csemix_dep"):
             return cls(**c.get("flags", {}))
+        if fam == "csemix_diff":
+            return cls(p.Variable(c.get("var", "x")))
         if fam == "subst":
             mp = {k: B.build(v, fresh=True) for k, v in c.get("map", [])}
             sim = SimState()
@@ -655,6 +664,8 @@ def execute(scenario, open_sigs):
             return M.P_eval, M.P_eval
         if fam == "csemix_dep":
             return M.P_dep, M.P_dep
+        if fam == "csemix_diff":
+            return M.P_diff, M.P_diff
         if fam == "plainopt":
             plain = M.P_ident
             memo = define(fam, bits) if bits else M.PO_ident_0
